@@ -236,15 +236,23 @@ func worldC17(w *World) {
 	}
 	nUserReq := t.Range(1, 3, "userreqs")
 	for i := 0; i < nUserReq; i++ {
-		u := append(users, "")[t.Choice(4, "who")]
+		u := append(users, "", "")[t.Choice(5, "who")]
+		// a signed-in user who is known by a federated identity only has no e-mail
+		// address: no backend is registered for such a user
+		federated := u == "" && t.Rare(1, 2, "federated")
 		path := []string{"/", "/app/page", "/app/x/y", "/other/z", "/nomatch"}[t.Choice(5, "path")]
 		i := i
-		steps = append(steps, step{kind: "user", desc: fmt.Sprintf("user %q requests %s", u, path),
+		steps = append(steps, step{kind: "user", desc: fmt.Sprintf("user %q (federated only: %v) requests %s", u, federated, path),
 			run: func() *gaeResult {
-				return gaeCall(w, plat, "default", simplatform.Identity{UserEmail: u}, "GET", fmt.Sprintf("%s?tok=u%d", path, i), nil, nil)
+				id := simplatform.Identity{UserEmail: u}
+				if federated {
+					id.Federated = "https://idp.example/u/4711"
+					w.Probe("federated_user_without_email")
+				}
+				return gaeCall(w, plat, "default", id, "GET", fmt.Sprintf("%s?tok=u%d", path, i), nil, nil)
 			},
 			want: func(r *gaeResult, before, after map[string]string) {
-				if u == "" {
+				if u == "" && !federated {
 					if r.Status != 401 || snapshotDiff(before, after) != "" {
 						w.Violation("user", "a request without a signed-in user was not refused | status %d changes %s", r.Status, snapshotDiff(before, after))
 					}
@@ -418,6 +426,51 @@ func worldC17(w *World) {
 			step{kind: "agent", desc: "new agent fetches after re-registration", run: call(newUser, "request"), want: expect(newUser, "new agent identity")},
 		)
 	}
+	// phase 5: the rightful agent and an intruder call for the same backend at almost
+	// the same moment while the datastore is slow
+	if t.Rare(1, 2, "concurrentpair") {
+		b := backends[t.Choice(nB, "pairtarget")]
+		ep := []string{"pending", "request"}[t.Choice(2, "pairendpoint")]
+		intruder := agents[(indexOf(agents, b.BackendUser)+1+t.Choice(2, "intruder"))%len(agents)]
+		gap := []time.Duration{0, 10 * time.Millisecond, 40 * time.Millisecond}[t.Choice(3, "pairgap")]
+		steps = append(steps, step{kind: "agent", desc: fmt.Sprintf("%s and the rightful agent call /agent/%s for %s %v apart, datastore slow", intruder, ep, b.BackendID, gap),
+			run: func() *gaeResult {
+				plat.Latency = func(*simplatform.RPC) time.Duration { return 50 * time.Millisecond }
+				defer func() { plat.Latency = nil }()
+				rid := "unknown-id"
+				if l := requestEntities(plat)[b.BackendID]; len(l) > 0 {
+					rid = l[0]
+				}
+				h := agentHdr(b.BackendID, rid)
+				if ep == "pending" {
+					h = agentHdr(b.BackendID, "")
+				}
+				var wg sync.WaitGroup
+				wg.Add(1)
+				go func() {
+					defer wg.Done()
+					// the long poll of a rightful "pending" call ends by itself
+					gaeCall(w, plat, "agent", simplatform.Identity{OAuthEmail: acl0(acl, b)}, "GET", "/agent/"+ep, h, nil)
+				}()
+				time.Sleep(gap)
+				r := gaeCall(w, plat, "agent", simplatform.Identity{OAuthEmail: intruder}, "GET", "/agent/"+ep, h, nil)
+				wg.Wait()
+				return r
+			},
+			want: func(r *gaeResult, before, after map[string]string) {
+				reg := acl[b.BackendID]
+				if reg != nil && reg.BackendUser == intruder {
+					return // (re-registered for this very identity)
+				}
+				w.Probe("intruder_concurrent_with_rightful_agent")
+				if r.Status != 401 {
+					w.Violation("agent", "an agent call by a caller who is not the backend's registered user was not refused with 401 | %s by %s for %s, concurrent with the rightful agent's call: %d", ep, intruder, b.BackendID, r.Status)
+				}
+				if bytes.Contains(r.Body, []byte("tok=")) {
+					w.Violation("agent", "a refused agent call disclosed stored bytes | %.60q", r.Body)
+				}
+			}})
+	}
 	var descs []string
 	for _, s := range steps {
 		descs = append(descs, s.desc)
@@ -441,6 +494,15 @@ func worldC17(w *World) {
 }
 
 // ---- C18 --------------------------------------------------------------------
+
+// acl0 is the identity currently registered for the backend (its original one if
+// the reference has no entry).
+func acl0(acl map[string]*gaeBackend, b *gaeBackend) string {
+	if r := acl[b.BackendID]; r != nil {
+		return r.BackendUser
+	}
+	return b.BackendUser
+}
 
 func worldC18(w *World) {
 	t := w.T
@@ -470,6 +532,14 @@ func worldC18(w *World) {
 		plans[i].ago = []time.Duration{time.Second, 2 * time.Minute, 4*time.Minute + 58*time.Second, 5*time.Minute + 2*time.Second, 20 * time.Minute}[t.Choice(5, "ago")]
 	}
 	lookupFault := t.Rare(1, 6, "lookupfault")
+	// a busy backend: a request is pending for it, so its agent's polls return at
+	// once, every 20 s over more than the liveness window; storing the liveness
+	// record is slower than the queries
+	busy := -1
+	if t.Rare(1, 4, "busybackend") {
+		busy = t.Choice(nB, "busywhich")
+		plans[busy].polls = false // driven separately
+	}
 	cronFirst := t.Rare(1, 3, "cronfirst")
 	nReq := t.Range(1, 5, "requests")
 	type ureq struct {
@@ -507,7 +577,12 @@ func worldC18(w *World) {
 			reqs = append(reqs, &ureq{tok: fmt.Sprintf("q%d", nReq+i), user: reqs[i].user, path: reqs[i].path, round: 1})
 		}
 	}
+	var lpMuSnap *sync.Mutex
 	snapshot := func(at time.Duration, lastPoll map[string]time.Duration) {
+		if lpMuSnap != nil {
+			lpMuSnap.Lock()
+			defer lpMuSnap.Unlock()
+		}
 		lp := map[string]time.Duration{}
 		for k, v := range lastPoll {
 			lp[k] = v
@@ -551,6 +626,9 @@ func worldC18(w *World) {
 				maxAgo = p.ago + 30*time.Second
 			}
 		}
+		if busy >= 0 && maxAgo < 7*time.Minute {
+			maxAgo = 7 * time.Minute
+		}
 		for i, p := range plans {
 			if p.polls {
 				// the list call long-polls for 30 s and re-registers the backend as seen on
@@ -561,6 +639,46 @@ func worldC18(w *World) {
 		sort.Slice(evs, func(a, b int) bool { return evs[a].at < evs[b].at })
 		base := w.K.Now()
 		var wg sync.WaitGroup
+		var lpMu sync.Mutex
+		lpMuSnap = &lpMu
+		if busy >= 0 {
+			bb := backends[busy]
+			plat.Latency = func(r *simplatform.RPC) time.Duration {
+				if r.Service == "datastore_v3" && r.Method == "Put" && len(r.Keys) > 0 && strings.HasPrefix(r.Keys[0], "/backendTracker:") {
+					return 30 * time.Millisecond
+				}
+				return 0
+			}
+			wg.Add(1)
+			go func() {
+				defer wg.Done()
+				poll := func() {
+					gaeCall(w, plat, "agent", simplatform.Identity{OAuthEmail: bb.BackendUser}, "GET", "/agent/pending", agentHdr(bb.BackendID, ""), nil)
+					lpMu.Lock()
+					lastPoll[bb.BackendID] = w.K.Now()
+					lpMu.Unlock()
+				}
+				time.Sleep(maxAgo - 6*time.Minute - 30*time.Second)
+				poll() // a long poll: the backend is live now
+				u := bb.EndUser
+				if u == "allUsers" {
+					u = users[0]
+				}
+				pfx := ""
+				if len(bb.PathPrefixes) > 0 {
+					pfx = bb.PathPrefixes[0]
+				}
+				go gaeCall(w, plat, "default", simplatform.Identity{UserEmail: u}, "GET", pfx+"/busy?tok=busy", nil, nil)
+				time.Sleep(time.Second)
+				if len(requestEntities(plat)[bb.BackendID]) > 0 {
+					w.Probe("busy_backend_polls_return_at_once")
+				}
+				for w.K.Now() < base+maxAgo-20*time.Second {
+					time.Sleep(20 * time.Second)
+					poll()
+				}
+			}()
+		}
 		for _, e := range evs {
 			if d := base + e.at - w.K.Now(); d > 0 {
 				time.Sleep(d)
@@ -767,14 +885,14 @@ func worldC19(w *World) {
 		calib               *creq
 		// after: issue this request only once that one has returned; urlTok: the token
 		// in the URL (the URL of a repeated GET equals the first one's)
-		after        *creq
-		dynReqSize   int // request body size decided at run time (calibrated)
+		after      *creq
+		dynReqSize int // request body size decided at run time (calibrated)
 		// cronAfterPost: the platform's periodic clean-up call (cron.yaml: /cron/delete)
 		// arrives right after the agent's response was stored, before the client's
 		// next look
 		cronAfterPost bool
-		urlTok       string
-		cacheControl string
+		urlTok        string
+		cacheControl  string
 	}
 	var reqs []*creq
 	for i := 0; i < nC; i++ {
